@@ -528,9 +528,72 @@ Proof.
     - lia. }
   destruct (I6 q Hi s Hs Hns Hd0) as [Hin _]. rewrite Hp in Hin. contradiction.
 Qed.
+
+(* ---------- transitive dependency order: everything "earlier" than a started segment has finished ---------- *)
+Lemma finished_started p : finished p = true -> started p = true.
+Proof. destruct p; cbn; auto. Qed.
+Lemma isdone_finished p : isdone p = true -> finished p = true.
+Proof. destruct p; cbn; auto. Qed.
+
+Lemma left_of_started q s t : reach q -> inS s -> started (st q s) = true ->
+  lo (row s) <= t -> t < s -> finished (st q t) = true.
+Proof.
+  intros Hr Hs Hst Hlo Hlt. pose proof (reach_inv q Hr) as Hi. destruct Hs as [HrR Hs].
+  assert (Hs1 : inS (t + 1)) by (apply (inS_intro (row s)); auto; lia).
+  assert (Er : row (t + 1) = row s) by (apply (inS_row (row s)); auto; lia).
+  assert (Hc : s < cur q (row s)) by (apply (I2 q Hi s); [split; auto | exact Hst]).
+  assert (Hst1 : started (st q (t + 1)) = true) by (apply (I2 q Hi (t + 1) Hs1); rewrite Er; lia).
+  destruct (started_after_deps q (t + 1) Hr Hs1 Hst1) as [Hl _].
+  replace (t + 1 - 1) with t in Hl by lia. apply Hl. unfold has_left. rewrite Er. apply Nat.ltb_lt. lia.
+Qed.
+
+Lemma band_hi_mono r2 : forall r1, r1 <= r2 -> r2 < R -> hi r1 + r2 * B <= hi r2 + r1 * B.
+Proof.
+  induction r2 as [|r2 IH]; intros r1 H1 H2.
+  - assert (r1 = 0) by lia. subst. lia.
+  - destruct (Nat.eq_dec r1 (S r2)) as [->|Hne]; [lia|].
+    specialize (IH r1 ltac:(lia) ltac:(lia)). pose proof (Hhi r2 ltac:(lia)) as Hh.
+    replace (r2 + 1) with (S r2) in Hh by lia. lia.
+Qed.
+
+Theorem started_after_all_earlier q : reach q -> forall r s, row s = r -> inS s -> started (st q s) = true ->
+  forall t, inS t -> t <> s -> row t <= row s -> t + row s * B <= s + row t * B -> finished (st q t) = true.
+Proof.
+  intros Hr r. pose proof (reach_inv q Hr) as Hi.
+  induction r as [|r IH]; intros s Er Hs Hst t Ht Hne Hrow Hband.
+  - (* same row *)
+    assert (Et : row t = 0) by lia. rewrite Er, Et in Hband.
+    apply (left_of_started q s t Hr Hs Hst); [|lia]. rewrite Er. destruct Ht as [_ Ht]. rewrite Et in Ht. lia.
+  - destruct (Nat.eq_dec (row t) (S r)) as [Et|Et].
+    + rewrite Er, Et in Hband. apply (left_of_started q s t Hr Hs Hst); [|lia]. rewrite Er. destruct Ht as [_ Ht]. rewrite Et in Ht. lia.
+    + (* an earlier row: go through the upper neighbour of s' = min s (hi r + B) *)
+      pose proof Hs as [HrR Hsr]. rewrite Er in HrR, Hsr.
+      destruct (Hup (S r) ltac:(lia) HrR) as [U1 U2]. replace (S r - 1) with r in U1, U2 by lia.
+      destruct (Hrows r ltac:(lia)) as [R1 [R2 R3]]. destruct (Hrows (S r) HrR) as [S1 [S2 S3]].
+      set (s' := Nat.min s (hi r + B)).
+      assert (Hs'r : lo (S r) <= s' <= hi (S r)) by (unfold s'; lia).
+      assert (Hs' : inS s') by (apply (inS_intro (S r)); auto).
+      assert (Es' : row s' = S r) by (apply (inS_row (S r)); auto).
+      assert (Hc : s < cur q (S r)) by (rewrite <- Er; apply (I2 q Hi s Hs); exact Hst).
+      assert (Hst' : started (st q s') = true) by (apply (I2 q Hi s' Hs'); rewrite Es'; unfold s'; lia).
+      destruct (started_after_deps q s' Hr Hs' Hst') as [_ Hu].
+      assert (Hup' : has_up s' = true).
+      { unfold has_up. rewrite Es'. replace (S r - 1) with r by lia. apply andb_true_iff; split; [apply Nat.ltb_lt; lia | apply Nat.leb_le; unfold s'; lia]. }
+      specialize (Hu Hup'). set (u := s' - B) in *.
+      assert (Hur : lo r <= u <= hi r) by (unfold u, s'; lia).
+      assert (Hu_in : inS u) by (apply (inS_intro r); auto; lia).
+      assert (Eu : row u = r) by (apply (inS_row r); auto; lia).
+      destruct (Nat.eq_dec t u) as [->|Htu]; [apply isdone_finished; exact Hu|].
+      apply (IH u Eu Hu_in (finished_started _ (isdone_finished _ Hu)) t Ht Htu); [rewrite Eu; lia|].
+      rewrite Eu. rewrite Er in Hband.
+      (* band t <= band s and band t <= band (hi r) *)
+      destruct Ht as [HtR Htr]. pose proof (band_hi_mono r (row t) ltac:(lia) ltac:(lia)) as Hm.
+      unfold u, s'. destruct (Nat.min_spec s (hi r + B)) as [[_ ->]|[_ ->]]; nia.
+Qed.
 End Proto.
 
 (* ---------- consequences, outside the section ---------- *)
 Print Assumptions reach_inv.
 Print Assumptions started_after_deps.
 Print Assumptions quiescent_all_done.
+Print Assumptions started_after_all_earlier.
